@@ -302,6 +302,16 @@ class Ctx:
             self.ext_schema[k] = dict(v)
         for k, v in getattr(m, "RECORDS", {}).items():
             self.rec_schemas[k] = dict(v)
+        self.ext_returns = dict(getattr(m, "EXTERNAL_RETURNS", {}))
+
+    def extern_return_ann(self, qualname):
+        """Declared (assumed) result shape of an external function, from specs/world.py EXTERNAL_RETURNS."""
+        a = getattr(self, "ext_returns", {}).get(qualname)
+        if isinstance(a, str):
+            import ast as _ast
+            a = self.parse_ann(self.world_mi, _ast.parse(a, mode="eval").body)
+            self.ext_returns[qualname] = a
+        return a
 
     def rec_field_ann(self, rec_ann, key):
         """Declared shape of rec[key] for a record annotation ('rec', dict | schema name | None)."""
